@@ -106,3 +106,11 @@ Print Assumptions C08_rollback_cpu.
 Theorem C08_round_keeps_grid : grid_closed.
 Proof. exact grid_closed_holds. Qed.
 Print Assumptions C08_round_keeps_grid.
+
+(* [on_grid] is satisfied by every workload whose cpu request is (as a real
+   value) the double nearest to k * 1e-9 for some 0 <= k <= 2^49: the plugin's
+   own reading of the amount in 1e-9 units returns k *)
+Theorem C08_on_grid_of_decimal : forall (w : wres) (k : Z),
+  cpu_is (wr_cpu_req w) k -> (0 <= k <= BND)%Z -> on_grid w.
+Proof. exact on_grid_of_decimal. Qed.
+Print Assumptions C08_on_grid_of_decimal.
